@@ -1,7 +1,7 @@
 """Property -> rules.  The explanation/assumption texts end up in the evidence files."""
 from .rules import dtype, evalnodes, executor, aggregates, eqfaith, compiler_rules as cr
 from .rules import cursor_rules as cu, library_rules as lib, state_rules as st, grammar_rules as gr
-from .rules import table_rules as tb, clause_rules as cl, sx_exec as sx, sx_cursor as sxc, sx_compiler as sxk, sx_select as sxs, sx_pivot as sxp, sx_tables as sxt, sx_numberify as sxn, sx_state as sxst, sx_types as sxty, sx_library as sxl, sx_datebin as sxdb
+from .rules import table_rules as tb, clause_rules as cl, sx_exec as sx, sx_cursor as sxc, sx_compiler as sxk, sx_select as sxs, sx_pivot as sxp, sx_tables as sxt, sx_numberify as sxn, sx_state as sxst, sx_types as sxty, sx_library as sxl, sx_datebin as sxdb, sx_guards as sxg
 
 TRUSTED_ABSINT = [
     "Python/library semantics of operators, attributes, methods and whitelisted callables are obtained by applying "
@@ -110,7 +110,7 @@ PROPS = {
             "equality faithful (R-EQFAITH). Does not decide acceptance of every well-formed statement nor validity "
             "of parse positions produced by TatSu at run time. Also on terms: the 11 combinations of placeholder kinds and parameter kinds give the stated outcome (R-PLACEHOLDER), the 33 FROM clause combinations (R-FROMCLAUSE), IN / NOT IN operands (R-INOP), the resolution primitives (R-LOOKUP)."),
         'assumptions': TRUSTED_STRUCT + TRUSTED_ABSINT[:1],
-        'quick': [cr.rule_raise, cr.rule_guards, cr.rule_targetchk, cr.rule_guard_typesafe, sxk.rule_idxbound,
+        'quick': [cr.rule_raise, sxg.rule_guards, sxg.rule_targetchk, cr.rule_guard_typesafe, sxk.rule_idxbound,
                   cr.rule_opresolve, cr.rule_partial, cr.rule_foldsafe, cr.rule_exhaustive, cr.rule_exctree,
                   eqfaith.rule_eqfaith, sxk.rule_coalesce, sxk.rule_implicitcast, sxst.rule_placeholder, sxk.rule_fromclause, sxk.rule_inop, sxty.rule_lookup],
         'thorough': [sxk.rule_idxbound_deep],
@@ -162,7 +162,7 @@ PROPS = {
             "single-column guard exists (R-GUARDS) and the IN node is NULL-propagating (R-NULLSTRICT). Does not decide "
             "equality of nested and materialised results in general. IN / NOT IN hand the compiled operands on unmodified, wrap a one-column subquery as a constant list and reject wider ones (R-INOP)."),
         'assumptions': TRUSTED_STRUCT,
-        'quick': [sxst.rule_reentrant, cr.rule_visfilter, eqfaith.rule_eqfaith, cr.rule_guards, evalnodes.rule_nullstrict,
+        'quick': [sxst.rule_reentrant, cr.rule_visfilter, eqfaith.rule_eqfaith, sxg.rule_guards, evalnodes.rule_nullstrict,
                   sx.rule_subq1d, sxk.rule_inop],
         'thorough': [],
     },
@@ -306,7 +306,7 @@ PROPS = {
             "decided: balance preservation, carried-forward Equity postings, balancing of returned transactions - "
             "properties of beancount.ops.summarize over ledger values. Compiler state is restored around every nested SELECT for every kind of FROM clause and on exceptional exits (R-REENTRANT); PRINT takes its directives from iterating the table, which is what applies the clauses (R-PRINTFILTER); the 33 combinations of FROM expression / OPEN / CLOSE / date order in _compile_from accept or reject as stated and update the table with exactly the clause values (R-FROMCLAUSE)."),
         'assumptions': TRUSTED_STRUCT,
-        'quick': [cl.rule_callorder, executor.rule_fromand, sxk.rule_fromclause, cr.rule_guards, cr.rule_guard_typesafe, sxst.rule_tablecopy,
+        'quick': [cl.rule_callorder, executor.rule_fromand, sxk.rule_fromclause, sxg.rule_guards, cr.rule_guard_typesafe, sxst.rule_tablecopy,
                   cl.rule_defaultclose, sxst.rule_reentrant, sx.rule_printfilter],
         'thorough': [],
     },
@@ -336,7 +336,7 @@ PROPS = {
             "column, block placement keys.index(k) * nother + 1, NULL fill (R-PIVOTSHAPE: the recognised skeleton; a "
             "rewrite ends in ANALYSIS-ERROR, not a verdict). NOT decided: the index arithmetic for all key sets."),
         'assumptions': TRUSTED_STRUCT,
-        'quick': [sxk.rule_idxbound, cr.rule_guard_typesafe, cr.rule_guards, sxp.rule_pivotshape],
+        'quick': [sxk.rule_idxbound, cr.rule_guard_typesafe, sxg.rule_guards, sxp.rule_pivotshape],
         'thorough': [sxp.rule_pivotshape_deep, sxk.rule_idxbound_deep],
     },
     'C19': {
